@@ -54,7 +54,19 @@ def read_back(path, texts, rng):
     out = dict(names=[], rows=[], single=dict(col="Time [ps]", values=[]), csvEqual=True, exact=True, err="")
     try:
         with quiet():
-            df = EnergyReader(path).load_energy()
+            reader = EnergyReader(path)
+            # a history on ONE reader object: a table and a column are taken, the caller shifts the returned column in place
+            # (e.g. `pot -= pot.min()`) and sorts the returned frame in place; the next load must still be the file's content
+            first = reader.load_energy()
+            if len(first.columns):
+                colname = str(first.columns[-1])
+                colarr = reader.load_single_energy_column(colname)
+                try:
+                    colarr -= 12345.0
+                    first.sort_values(by=colname, inplace=True, ascending=False)
+                except Exception:
+                    pass
+            df = reader.load_energy()
         out["names"] = [str(c) for c in df.columns]
         vals = df.to_numpy(dtype=float) * 1e6 if len(df.columns) else np.zeros((0, 0))
         if vals.size and not np.all(np.isfinite(vals)):
@@ -167,7 +179,7 @@ def grid_part(ctx: Ctx, rng, thorough):
     d = ctx.scratch / "grids"
     d.mkdir()
     it = Interner()
-    grids = [("1", "1", "[0.2]", False), ("1", "4", "[0.2, 0.3]", False), ("2", "3", "[0.1, 0.2, 0.4]", False),
+    grids = [("12", "4", "[0.2, 0.3]", False), ("1", "1", "[0.2]", False), ("1", "4", "[0.2, 0.3]", False), ("2", "3", "[0.1, 0.2, 0.4]", False),
              ("4", "5", "[0.2, 0.35]", False), ("5", "4", "[0.2, 0.3]", True), ("8", "7", "linspace(0.2, 0.4, 3)", False)]
     if thorough:
         grids += [("randomQ_6", "randomS_9", "[0.15, 0.3]", False), ("cube4D_9", "cube3D_9", "[0.2, 0.3, 0.45]", True),
